@@ -7,7 +7,7 @@ THEOREMS = [("FlatModel.Props.C11", t) for t in ("FC.C12.kth", "FC.C12.count_def
     ("FlatModel.Props.C12", t) for t in ("FC.C12.columns_kth", "FC.C12.columns_row_exact", "FC.C12.count_merge")]
 THEOREMS += [("FlatModel.Props.UniverseOps", "FC.Universe.C12_merge_every_consec")]
 LEAN_TARGETS = ["FlatModel.Generated.Covered"]
-PROFILES = {"quick": ["checked"], "thorough": ["checked", "wrapping"], "search": ["checked"]}
+PROFILES = {"quick": ["checked", "wrapping"], "thorough": ["checked", "wrapping"], "search": ["checked"]}
 RULE = ("push sequences with empty items and ragged rows 0..6 wide in any order on every consec(..)/columns(..) entry, across "
         "clear and merge_regions; oracle: returned index == number of pushes since creation/merge/clear, index k reads the k-th "
         "item with exactly its own length; non-trivial with >= 1 empty and >= 1 non-empty item (for columns: a row wider than all "
